@@ -151,3 +151,78 @@ def thin(items, limit, seed):
     rng = random.Random(seed)
     idx = sorted(rng.sample(range(len(items)), limit))
     return [items[i] for i in idx], False
+
+
+def pair_structs(sym, na, nb, tables, free_tables, ks=None):
+    """contractible pairs: b's contracted legs are conjugates of a's.
+    -> list of (a_indices, b_indices, axes_a, axes_b)"""
+    out = []
+    ix_opts = [(cm, d) for cm in tables for d in (False, True)]
+    free_opts = [(cm, d) for cm in free_tables for d in (False, True)]
+    for k in (range(0, min(na, nb) + 1) if ks is None else ks):
+        if k > min(na, nb):
+            continue
+        for a_ixs in itertools.product(ix_opts, repeat=na):
+            for axa in itertools.permutations(range(na), k):
+                for axb in itertools.permutations(range(nb), k):
+                    free_pos = [i for i in range(nb) if i not in axb]
+                    for b_free in itertools.product(free_opts, repeat=len(free_pos)):
+                        b_ixs = [None] * nb
+                        for i, j in zip(axa, axb):
+                            b_ixs[j] = conj_index(a_ixs[i])
+                        for p, ixs in zip(free_pos, b_free):
+                            b_ixs[p] = ixs
+                        out.append((tuple(a_ixs), tuple(b_ixs), axa, axb))
+    return out
+
+
+def expand_pair(sym, struct, rng, generic=False, fermionic=False, sparsity_threshold=3, max_pairs=6,
+                labels=(1, 2), phases=False, max_phase=2):
+    """charges x sparsity pairs [x pending-sign tables] for one pair structure -> list of (A, B, axes)"""
+    a_ixs, b_ixs, axa, axb = struct
+    cases = []
+    for qa in possible_charges(sym, a_ixs):
+        sa = sectors_of(sym, a_ixs, qa)
+        for qb in possible_charges(sym, b_ixs):
+            sb = sectors_of(sym, b_ixs, qb)
+            pa, exa = subsets(sa, sparsity_threshold, rng)
+            pb, exb = subsets(sb, sparsity_threshold, rng)
+            combos = list(itertools.product(pa, pb))
+            ex = exa and exb
+            if len(combos) > max_pairs:
+                rest = combos[1:]
+                rng.shuffle(rest)
+                combos = combos[:1] + rest[: max_pairs - 1]
+                ex = False
+            for pra, prb in combos:
+                A = dict(sym=sym, generic=generic, fermionic=fermionic, indices=a_ixs, charge=qa, present=tuple(pra),
+                         phases=(), oddpos=None, name="a")
+                B = dict(sym=sym, generic=generic, fermionic=fermionic, indices=b_ixs, charge=qb, present=tuple(prb),
+                         phases=(), oddpos=None, name="b")
+                if fermionic:
+                    if gs.parity(sym, qa):
+                        A["oddpos"] = labels[0]
+                    if gs.parity(sym, qb):
+                        B["oddpos"] = labels[1]
+                    if phases:
+                        pha, _ = subsets(pra, 2, rng, allow_empty=True, nrand=1)
+                        phb, _ = subsets(prb, 2, rng, allow_empty=True, nrand=1)
+                        pp = list(itertools.product(pha, phb))
+                        if len(pp) > max_phase:
+                            rng.shuffle(pp)
+                            pp = pp[:max_phase]
+                            ex = False
+                        for x, y in pp:
+                            cases.append((dict(A, phases=tuple(x)), dict(B, phases=tuple(y)), (axa, axb), ex))
+                        continue
+                cases.append((A, B, (axa, axb), ex))
+    return cases
+
+
+def std_tables(sym, thorough=False, n_two=3, n_one=2):
+    tabs = index_tables(sym, 2, ("ones", "graded"))
+    two = [t for t in tabs if len(t) == 2 and t[0][1] != t[1][1]]
+    one = [t for t in tabs if len(t) == 1]
+    if sym != "Z2" and not thorough:
+        two, one = two[:n_two], one[:n_one]
+    return two, one
